@@ -371,7 +371,13 @@ class ConvexPolyhedron(GeoBody):
 
     def __eq__(self, other):
         if isinstance(other, ConvexPolyhedron):
-            return hash(self) == hash(other)
+            if hash(self) != hash(other):
+                return False
+            # equal hashes do not imply equal polyhedra, compare the
+            # vertices as well
+            return len(self.point_set) == len(other.point_set) and all(
+                any(p == q for q in other.point_set) for p in self.point_set
+            )
         else:
             return False
 
